@@ -439,4 +439,68 @@ theorem amountToString_nowrap (v : Int) (e : Nat) (he0 : 0 < e) (he : e ≤ 18)
     rw [wrap64_id _ (by unfold minInt64; omega) (by unfold maxInt64; omega)]
   · simp [hneg]
 
+/-! ## bytes, the JSON layer, the result shapes of the wrappers -/
+
+theorem ofBytes_toBytes (s : Text) : GoStrings.ofBytes (GoStrings.toBytes s) = s := by
+  unfold GoStrings.ofBytes GoStrings.toBytes
+  rw [List.map_map]
+  conv => rhs; rw [← List.map_id s]
+  congr 1
+  funext c
+  simp [Char.ofNat_toNat]
+
+theorem toBytes_length (s : Text) : (GoStrings.toBytes s).length = s.length := by
+  simp [GoStrings.toBytes]
+
+theorem toNat_eq_34 (c : Char) : c.toNat = 34 ↔ c = '"' := by
+  constructor
+  · intro h
+    have : Char.ofNat c.toNat = c := Char.ofNat_toNat c
+    rw [h] at this; rw [← this]
+  · intro h; subst h; rfl
+
+/-- `jsonText` in the result shape of the translation -/
+def jsonTextGo : Except Err (Text × Bool) → Text × Bool × Option Str
+  | .ok (t, null) => (t, null, none)
+  | .error _ => ([], false, some GoJson.errJson)
+
+/-- the wrappers: the receiver keeps its value on an error -/
+def toGoU {α : Type} (cur : α) : Except Err α → Option Str × α
+  | .ok a => (none, a)
+  | .error e => (GoStr.errNew (errFormat e), cur)
+
+def toGoP : Except Err Pct → Pct × Option Str
+  | .ok p => (p, none)
+  | .error e => (⟨⟨0, 0⟩⟩, GoStr.errNew (errFormat e))
+
+theorem jsonText_error (value : Text) (e : Err) (h : Codec.jsonText value = .error e) : e = .json := by
+  unfold Codec.jsonText at h
+  split at h
+  · split at h
+    · injection h with h; exact h.symm
+    · cases h
+  · cases h
+
+theorem errJson_eq : GoStr.errNew (errFormat .json) = some GoJson.errJson := by decide
+
+theorem toGo_snd_isSome (r : Except Err Amount) : (toGo r).2.isSome = true ↔ ∃ e, r = .error e := by
+  cases r <;> simp [toGo, GoStr.errNew]
+
+
+/-! ## percentages -/
+
+/-- `str[l-1:] == "%"` is `getLast? = some '%'`, `str[:l-1]` is `dropLast` -/
+theorem drop_last_eq (s : Text) (c : Char) (hne : s ≠ []) :
+    (List.drop (Int.toNat ((s.length : Int) - 1)) s = [c]) ↔ s.getLast? = some c := by
+  rcases List.eq_nil_or_concat s with h | ⟨t, d, h⟩
+  · exact absurd h hne
+  · subst h
+    have : Int.toNat (((t.concat d).length : Int) - 1) = t.length := by simp
+    rw [this]
+    simp
+
+theorem take_last_eq (s : Text) : List.take (Int.toNat ((s.length : Int) - 1)) s = s.dropLast := by
+  have : Int.toNat ((s.length : Int) - 1) = s.length - 1 := by omega
+  rw [this, List.dropLast_eq_take]
+
 end GoblVerif.CodecTie
